@@ -9,6 +9,7 @@ out, which exceptions may escape (identity of the injected exception object), an
 epilogue - recovery of the original placement within 2.5 dead_timeout of traffic.
 Exploration: all event sequences up to a depth bound over a reduced alphabet (by prefix
 replay), plus seeded random long sequences over the full alphabet."""
+import errno
 import itertools
 import random
 
@@ -32,7 +33,7 @@ ASSUMPTIONS = [
 ]
 MIN_NONTRIVIAL = {"quick": 3000, "thorough": 30000}
 REQUIRED_COUNTERS = ["failed_contacts", "evictions_observed", "reroutes_observed", "revivals_observed", "recovery_epilogues",
-                     "window_checks"]
+                     "window_checks", "failed_contacts_at_socket_creation"]
 SHARDS = {"quick": 16, "thorough": 16}
 TIMEOUT = {"quick": 1200, "thorough": 7200}
 
@@ -507,6 +508,7 @@ def run_sequence(res, cfg, seq, epilogue=False, label="exh"):
     res.count("reroutes_observed", st["reroutes"])
     res.count("revivals_observed", st["revivals"])
     res.count("window_checks", st["window_checks"])
+    res.count("failed_contacts_at_socket_creation", sum(1 for e in sim.net.raised if getattr(e, "errno", None) == errno.EAFNOSUPPORT))
     res.count("exceptions_escaped_legitimately", st["escaped_ok"])
     res.maximum("max_failed_contacts_in_retry_window", st["max_in_retry_window"])
     res.maximum("max_failed_contacts_in_dead_window", st["max_in_dead_window"])
